@@ -123,6 +123,8 @@ def _guarded(clause, case, stats):
     stats.evals += 1
     stats.fail = {"case": codec.enc(case), "detail": e.detail, "site": e.site}
     raise
+  except MemoryError:
+    raise HarnessError("MemoryError while running case %s" % codec.dumps(case)[:300])
   except (Exception, OverRead) as e:
     stats.evals += 1
     stats.fail = {"case": codec.enc(case),
@@ -192,9 +194,21 @@ def _run_enumerated(mod, clause, tier, shard, nshards):
   return res
 
 
+def _limit_memory():
+  """A runaway case must not eat the machine: cap the address space of each
+  worker (MemoryError is then reported as a harness error, never a violation)."""
+  try:
+    import resource
+    cap = int(os.environ.get("VERIF_MEM_GB", "4")) * 2 ** 30
+    resource.setrlimit(resource.RLIMIT_AS, (cap, cap))
+  except Exception:
+    pass
+
+
 def _task(args):
   modname, ci, tier, seedv, shard, nshards, examples = args
   import importlib
+  _limit_memory()
   mod = importlib.import_module(modname)
   clause = mod.CLAUSES[ci]
   t0 = time.time()
@@ -310,8 +324,24 @@ def run_property(mod, tier, seedv, only=None, jobs=None):
     results = [_task(t) for t in tasks]
   else:
     ctx = multiprocessing.get_context("fork")
-    with ctx.Pool(min(jobs, max(1, len(tasks)))) as pool:
-      results = pool.map(_task, tasks, chunksize=1)
+    budget = float(os.environ.get("VERIF_WALL_S", {"quick": 900, "thorough": 7200}[tier]))
+    pool = ctx.Pool(min(jobs, max(1, len(tasks))))
+    try:
+      pending = [pool.apply_async(_task, (t,)) for t in tasks]
+      results = []
+      for t, p in zip(tasks, pending):
+        left = budget - (time.time() - t0)
+        try:
+          results.append(p.get(timeout=max(1.0, left)))
+        except multiprocessing.TimeoutError:
+          # inconclusive, never a violation (also covers a worker killed by the OS)
+          results.append({"evals": 0, "rejected": 0, "nt": set(), "ntc": 0, "labels": {},
+                          "samples": [], "fail": None, "clause": t[1], "wall": budget,
+                          "error": "wall-clock guard: shard %d of clause %s did not finish within %ds (inconclusive)"
+                                   % (t[4], mod.CLAUSES[t[1]].name, budget)})
+    finally:
+      pool.terminate()
+      pool.join()
 
   # merge per clause
   per = {}
